@@ -6,6 +6,8 @@
 package routing
 
 import (
+	"sync"
+
 	log "github.com/sirupsen/logrus"
 
 	"github.com/dtn7/dtn7-go/pkg/bpv7"
@@ -16,6 +18,10 @@ import (
 // flooding-based epidemic way.
 type EpidemicRouting struct {
 	c *Core
+
+	// sentMutex serialises the read-modify-write cycles on a bundle's "routing/epidemic/sent" store property.
+	// Core.forward reports the failures of parallel transmissions from one goroutine each.
+	sentMutex sync.Mutex
 }
 
 // NewEpidemicRouting creates a new EpidemicRouting Algorithm interacting
@@ -83,6 +89,11 @@ func (er *EpidemicRouting) NotifyNewBundle(bp BundleDescriptor) {
 }
 
 func (er *EpidemicRouting) clasForBundle(bp BundleDescriptor, updateDb bool) (css []cla.ConvergenceSender, del bool) {
+	if updateDb {
+		er.sentMutex.Lock()
+		defer er.sentMutex.Unlock()
+	}
+
 	bi, biErr := er.c.store.QueryId(bp.Id)
 	if biErr != nil {
 		log.WithFields(log.Fields{
@@ -155,6 +166,9 @@ func (er *EpidemicRouting) SenderForBundle(bp BundleDescriptor) (css []cla.Conve
 }
 
 func (er *EpidemicRouting) ReportFailure(bp BundleDescriptor, sender cla.ConvergenceSender) {
+	er.sentMutex.Lock()
+	defer er.sentMutex.Unlock()
+
 	bi, biErr := er.c.store.QueryId(bp.Id)
 	if biErr != nil {
 		log.WithFields(log.Fields{
